@@ -106,6 +106,8 @@ func runC06(r *Run, verifDir string) {
 	c06D9(r)
 	c06D10(r)
 	c06D13(r)
+	c06D15(r)
+	r.Import("C06.D14", "a typed decode that failed is never followed by another read on the same decoder (no generic retry of an element whose registered type did not fit)", 54, "C02", "C02.R8", func(k string) bool { return strings.HasPrefix(k, "kmip.") || strings.HasPrefix(k, "payloads.") })
 	r.Rule("C06.D12", "the opaque container records the tag of what it holds: Value.TagDecodeTTLV stores its tag on every successful return", 1)
 	valueTagRecorded(r, "C06.D12")
 	(&lexCtx{r: r, p: r.P, ord: map[string]int{}}).l1Hex("C06.D11")
@@ -1255,5 +1257,172 @@ func c06D13(r *Run) {
 		r.Bad("C06.D13", key, bad, "the decoder of ResponseBatchItem branches on the item's Result Status (or Err()): items whose status is not Success but which carry a payload of their operation (Operation Pending, Operation Undone) are refused, and with them the whole response message")
 	} else {
 		r.OK("C06.D13", key, fn.Pos(), "no branch of the decoder depends on ResultStatus or Err()")
+	}
+}
+
+// c06D15: the payload type of a batch item is the one registered for its operation code — the whole 32-bit code.
+// newRequestPayload / newResponsePayload return either the opaque UnknownPayload carrying that code, or the constructor
+// found in a package-level registry under the code itself (a map lookup on its ok edge, or an array/slice element
+// indexed by the code without a narrowing conversion). A table indexed by uint8(op) decodes vendor operation
+// 0x8000000A as a Get.
+func c06D15(r *Run) {
+	r.Rule("C06.D15", "payload constructors are selected by the full operation code: registry lookup keyed by the code itself, else UnknownPayload with that code", 2)
+	for _, name := range []string{"newRequestPayload", "newResponsePayload"} {
+		fn := r.P.Func("", "", name)
+		key := "kmip." + name
+		if fn == nil || len(fn.Params) != 1 {
+			r.Unk("C06.D15", key, token.NoPos, "anchor missing")
+			continue
+		}
+		op := ssa.Value(fn.Params[0])
+		isOp := func(v ssa.Value) bool {
+			for {
+				if v == op {
+					return true
+				}
+				cv, ok := v.(*ssa.Convert)
+				if !ok {
+					return false
+				}
+				// widening or same-size integer conversions only
+				if b, ok := cv.Type().Underlying().(*types.Basic); !ok || b.Info()&types.IsInteger == 0 || r.P.sizes().Sizeof(cv.Type()) < r.P.sizes().Sizeof(op.Type()) {
+					return false
+				}
+				v = cv.X
+			}
+		}
+		fromGlobal := func(v ssa.Value) bool {
+			for i := 0; i < 4; i++ {
+				switch x := v.(type) {
+				case *ssa.Global:
+					return true
+				case *ssa.UnOp:
+					v = x.X
+				case *ssa.Slice:
+					v = x.X
+				default:
+					return false
+				}
+			}
+			return false
+		}
+		var keyed func(v ssa.Value, d int) (bool, string)
+		keyed = func(v ssa.Value, d int) (bool, string) {
+			if d > 6 {
+				return false, "selection too deep to follow"
+			}
+			switch x := v.(type) {
+			case *ssa.Alloc:
+				var src ssa.Value
+				n := 0
+				for _, ref := range *x.Referrers() {
+					if st, ok := ref.(*ssa.Store); ok && st.Addr == ssa.Value(x) {
+						src = st.Val
+						n++
+					}
+				}
+				if n == 1 {
+					return keyed(src, d+1)
+				}
+				return false, "the constructor record is assigned in several places"
+			case *ssa.UnOp:
+				return keyed(x.X, d+1)
+			case *ssa.Extract:
+				return keyed(x.Tuple, d+1)
+			case *ssa.Lookup:
+				if !fromGlobal(x.X) {
+					return false, "looked up in something else than a package-level registry"
+				}
+				if !isOp(x.Index) {
+					return false, "the registry is not keyed by the operation code itself"
+				}
+				return true, ""
+			case *ssa.IndexAddr:
+				if !fromGlobal(x.X) {
+					return false, "taken from something else than a package-level table"
+				}
+				if !isOp(x.Index) {
+					return false, "the table is indexed by a narrowed or transformed operation code (its upper bits are ignored)"
+				}
+				return true, ""
+			case *ssa.Index:
+				if !isOp(x.Index) {
+					return false, "the table is indexed by a narrowed or transformed operation code (its upper bits are ignored)"
+				}
+				return true, ""
+			case *ssa.Phi:
+				for _, e := range x.Edges {
+					if ok, why := keyed(e, d+1); !ok {
+						return false, why
+					}
+				}
+				return true, ""
+			case *ssa.Call:
+				if callee := x.Call.StaticCallee(); callee != nil && callee.Blocks != nil && idOf(callee).pkg == modPath {
+					// a lookup helper of the package: decided on its returns, with its parameter standing for the code
+					for i, a := range x.Call.Args {
+						if isOp(a) && i < len(callee.Params) {
+							saved := op
+							op = callee.Params[i]
+							okAll, whyAll := true, ""
+							for _, b := range callee.Blocks {
+								if ret, isRet := b.Instrs[len(b.Instrs)-1].(*ssa.Return); isRet && len(ret.Results) > 0 && !isNilConst(ret.Results[0]) {
+									if ok, why := keyed(ret.Results[0], d+1); !ok {
+										okAll, whyAll = false, why
+									}
+								}
+							}
+							op = saved
+							return okAll, whyAll
+						}
+					}
+				}
+				return false, "obtained from a call that is not given the operation code"
+			}
+			return false, "not a registry lookup"
+		}
+		n, bad, why := 0, token.NoPos, ""
+		for _, b := range fn.Blocks {
+			ret, ok := b.Instrs[len(b.Instrs)-1].(*ssa.Return)
+			if !ok || len(ret.Results) != 1 {
+				continue
+			}
+			n++
+			v := ret.Results[0]
+			if mi, ok := v.(*ssa.MakeInterface); ok {
+				if al, ok := mi.X.(*ssa.Alloc); ok && typeName(derefType(al.Type())) == "UnknownPayload" {
+					okCode := false
+					for _, ref := range *al.Referrers() {
+						if fa, ok := ref.(*ssa.FieldAddr); ok {
+							for _, r2 := range *fa.Referrers() {
+								if st, ok := r2.(*ssa.Store); ok && st.Val == op {
+									okCode = true
+								}
+							}
+						}
+					}
+					if !okCode {
+						bad, why = ret.Pos(), "the opaque payload does not carry the operation code"
+					}
+					continue
+				}
+			}
+			call, ok := v.(*ssa.Call)
+			if !ok || len(call.Call.Args) == 0 {
+				bad, why = ret.Pos(), "the payload is neither an UnknownPayload nor the result of a registered constructor"
+				continue
+			}
+			if ok, w := keyed(call.Call.Args[0], 0); !ok {
+				bad, why = ret.Pos(), w
+			}
+		}
+		switch {
+		case n == 0:
+			r.Unk("C06.D15", key, fn.Pos(), "no return found")
+		case bad.IsValid():
+			r.Bad("C06.D15", key, bad, "%s selects a payload constructor without the full operation code (%s): an unregistered code sharing its low bits with a registered operation is decoded as that operation's payload instead of being kept opaque", name, why)
+		default:
+			r.OK("C06.D15", key, fn.Pos(), "%d return(s): registry entry under the code itself, or UnknownPayload carrying the code", n)
+		}
 	}
 }
